@@ -363,6 +363,15 @@ def edge_forms(P, R, rule='C20.TAB.2'):
         if declares:
             n += 1
             R.ob(rule, bool(fw), aps[0], '%s records every declared edge in a depends list' % f.name, key='edge-forward:%s' % f.name)
+        if declares:
+            # ... and every forward entry has its reverse entry on the same paths: the unload rounds read only the
+            # reverse lists, and the walk in the list loader mirrors forward entries only for the modules it starts from
+            for owner, val, s in fw:
+                mates = [t for o2, v2, t in rv if o2 == val and v2 == owner]
+                together = bool(mates) and (mates[0].bid == s.bid or f.path_avoiding(s, lambda t: t.key == mates[0].key) is None or f.path_avoiding(mates[0], lambda t: t.key == s.key) is None)
+                n += 1
+                R.ob(rule, together, s, 'in %s the forward entry (%s listed in %s\'s depends) is recorded together with its reverse entry (%s in %s\'s rdepends)' % (f.name, val, owner, owner, val),
+                     key='edge-both:%s' % f.name)
         for owner, val, s in rv:
             paired = any(o2 == val and v2 == owner for o2, v2, _ in fw)
             # ... or the owner was looked up from an element of val's depends list
